@@ -294,6 +294,9 @@ class GridWeighted(Grid):
             self._weights = [float(val) for val in value]
         else:
             raise TypeError("The input should be a list, tuple or a single int, float value")
+        # The weighted grid points depend on the weights: drop the cached ones (a new list, so that a grid the caller
+        # has already read is left alone)
+        self._cache['gridptsw'] = []
 
     def reset(self):
         """ Resets the grid. """
